@@ -93,6 +93,8 @@ type scenario struct {
 	AutoSize       int          `json:"auto_size,omitempty"`   // buffer auto: bytes kept in memory before the spill to the file system
 	V6             bool         `json:"ipv6,omitempty"`        // endpoint listens on [::1], the client is an IPv6 client
 	Hostile        *hostileCase `json:"hostile,omitempty"`     // group X (hostile_test.go)
+	Repeat         *repeatCase  `json:"repeat,omitempty"`      // group R (repeat_test.go)
+	ChkScope       string       `json:"check_scope,omitempty"` // where the scripted check is configured: "" = global check{}, "source", "dest"
 	Faults         []fault      `json:"faults"`
 	Steps          []step       `json:"steps"`
 	End            string       `json:"end"` // quit halfclose rst close
@@ -216,7 +218,13 @@ func (sc *scenario) configText(id string) string {
 	} else if sc.Limits {
 		b.WriteString("limits {\n all concurrency 1\n ip concurrency 1\n source concurrency 1\n}\n")
 	}
-	b.WriteString("check {\n c03chk " + id + "\n}\n")
+	chkBlock := func(scope string) string {
+		if sc.ChkScope != scope {
+			return ""
+		}
+		return "check {\n c03chk " + id + "\n}\n"
+	}
+	b.WriteString(chkBlock(""))
 	// global modifiers: the static alias table first, then the scripted modifier
 	scripted := ""
 	if sc.ModRule != "" {
@@ -239,24 +247,28 @@ func (sc *scenario) configText(id string) string {
 		if d == "a.example" {
 			names += " " + idnA
 		}
-		b.WriteString("destination " + names + " {\n" + sc.aliasBlock("dest", d, "") + tgt(ts...) + "}\n")
+		b.WriteString("destination " + names + " {\n" + chkBlock("dest") + sc.aliasBlock("dest", d, "") + tgt(ts...) + "}\n")
 	}
 	b.WriteString("destination rej.example {\n reject 550 5.1.1 \"no such user here\"\n}\n")
 	if sc.DefaultDeliver {
-		b.WriteString("default_destination {\n" + sc.aliasBlock("dest", "default", "") + tgt(sc.NT-1) + "}\n")
+		b.WriteString("default_destination {\n" + chkBlock("dest") + sc.aliasBlock("dest", "default", "") + tgt(sc.NT-1) + "}\n")
 	} else {
 		b.WriteString("default_destination {\n reject 554 5.7.1 \"relay denied\"\n}\n")
 	}
 	// the destination blocks: at the top level, or inside source blocks when the source scope has a table
 	body := b.String()
-	switch sc.AliasSource {
+	srcPlacement := sc.AliasSource
+	if srcPlacement == "" && sc.ChkScope == "source" {
+		srcPlacement = "default_source"
+	}
+	switch srcPlacement {
 	case "":
 		top.WriteString(body)
 	case "default_source":
-		top.WriteString("default_source {\n" + sc.aliasBlock("source", "", "") + body + "}\n")
+		top.WriteString("default_source {\n" + chkBlock("source") + sc.aliasBlock("source", "", "") + body + "}\n")
 	default:
-		top.WriteString("source s1.example " + idnA + " {\n" + sc.aliasBlock("source", "", "") + body + "}\n")
-		top.WriteString("default_source {\n" + sc.aliasBlock("source", "", "") + body + "}\n")
+		top.WriteString("source s1.example " + idnA + " {\n" + chkBlock("source") + sc.aliasBlock("source", "", "") + body + "}\n")
+		top.WriteString("default_source {\n" + chkBlock("source") + sc.aliasBlock("source", "", "") + body + "}\n")
 	}
 	return top.String()
 }
